@@ -363,6 +363,33 @@ impl NodeSuite {
                 }
                 Some(self.deliver(from, addr_of(to), data))
             }
+            "nforge" => {
+                // nforge <to> <from> <cipher 1|2|3> <zero|ff> <key id> <half 0|1> <hex plaintext>: somebody who was never given a session key seals a
+                // datagram under a key of its own choice (all-zero / all-0xff), names a key slot, uses a counter in the given half, and sends it
+                // from the (claimed) address <from>.  The datagram is reported (`forged=<hex>`) before the observation of its delivery.
+                let to: u16 = t.get(1)?.parse().ok()?;
+                let from = parse_addr(t.get(2)?)?;
+                let algo: &'static ring::aead::Algorithm = match *t.get(3)? {
+                    "1" => &ring::aead::AES_128_GCM,
+                    "2" => &ring::aead::AES_256_GCM,
+                    _ => &ring::aead::CHACHA20_POLY1305,
+                };
+                let key = vec![if *t.get(4)? == "zero" { 0u8 } else { 0xffu8 }; algo.key_len()];
+                let key_id: u8 = t.get(5)?.parse().ok()?;
+                let mut nonce = [0u8; 12];
+                nonce[0] = if *t.get(6)? == "1" { 0x80 } else { 0x00 };
+                for b in nonce[6..12].iter_mut() {
+                    *b = 0xfe;
+                }
+                let mut data = if *t.get(7)? == "-" { vec![] } else { unhex(t.get(7)?)? };
+                let k = ring::aead::LessSafeKey::new(ring::aead::UnboundKey::new(algo, &key).ok()?);
+                k.seal_in_place_append_tag(ring::aead::Nonce::assume_unique_for_key(nonce), ring::aead::Aad::empty(), &mut data).ok()?;
+                let mut d = vec![key_id];
+                d.extend_from_slice(&nonce[5..12]);
+                d.extend_from_slice(&data);
+                let obs = self.deliver(from, addr_of(to), d.clone());
+                Some(format!("forged={} {}", hex(&d), obs))
+            }
             "nmark" => {
                 // nmark <name>: remember the datagram that was put on the wire last (for `nreplay m:<name> …`)
                 if self.wire.is_empty() {
